@@ -39,16 +39,24 @@ class Case:
     keep: tuple = ()  # names of intermediate particles to keep (empty: all)
     alignment: str = "none"  # none | axis | dpd1 | dpd2 | dpd3
     tier: str = "quick"
+    events: str = "uniform"  # uniform | lowpair:i,j (pair mass in the lowest 12 % of its range: fast resonance and daughters)
+    rtol: float = RTOL
 
     @property
     def id(self) -> str:
         k = "+".join(self.keep) if self.keep else "all"
-        return f"{self.reaction}[{k}]/{self.alignment}"
+        ev = "" if self.events == "uniform" else f"/{self.events}"
+        return f"{self.reaction}[{k}]/{self.alignment}{ev}"
 
 
 RHO = "jpsi_pi0_pip_pim_rho"
 LC = "lambdac_p_km_pip"
+SYN = "synthetic_heavy_parent"
 CASES = [
+    # axis-angle, two topologies (01)2 + (02)1, integer spins, spin-1 final state below a resonance; the second
+    # family has a light fast resonance and daughter, so that Wigner rotations beyond 90 degrees occur
+    Case(SYN, (), "axis", events="lowpair:0,1", rtol=1e-7),
+    Case(SYN, (), "axis", rtol=1e-7),
     Case("jpsi_gamma_pi0_pi0"),
     Case(RHO, ("rho(770)+", "rho(770)-")),
     Case(RHO),
@@ -85,6 +93,10 @@ CASES = [
     Case(LC, ("Lambda(1520)",), "dpd1", tier="thorough"),
     Case(LC, ("K*(892)0",), "dpd3", tier="thorough"),
     Case(LC, ("Lambda(1520)", "Delta(1232)++"), "dpd1", tier="thorough"),
+    Case("jpsi_pip_omega_pim", (), "axis", tier="thorough"),
+    Case("jpsi_pip_omega_pim", ("b(1)(1235)+",), "axis", tier="thorough"),
+    Case(SYN, ("R1",), "axis", tier="thorough", events="lowpair:0,1", rtol=1e-7),
+    Case(SYN, (), "axis", tier="thorough", events="lowpair:0,2", rtol=1e-7),
     Case("etac_pi0_p_pbar", ("N(1440)+",), tier="thorough"),
     Case("etac_pi0_p_pbar", ("N(1440)+",), "axis", tier="thorough"),
     Case("etac_pi0_p_pbar", ("N(1440)~-",), "dpd1", tier="thorough"),
@@ -190,6 +202,25 @@ def phase_space(g, M, masses, n):
             out[j] = pj
             frame = ps
     out[0] = frame
+    return out
+
+
+def low_pair_mass(g, M, masses, pair, n, frac=0.12):
+    """Three-body events M -> k + X, X -> i j with m_X in the lowest `frac` of its range."""
+    i, j = pair
+    (k,) = [x for x in range(3) if x not in pair]
+    lo, hi = masses[i] + masses[j], M - masses[k]
+    mx = lo + (hi - lo) * g.uniform(0.002, frac, n)
+    q = _two_body(M, mx, masses[k])
+    d = _iso(g, n)
+    px = np.concatenate([np.sqrt(mx ** 2 + q * q)[:, None], q[:, None] * d], axis=1)
+    pk = np.concatenate([np.sqrt(masses[k] ** 2 + q * q)[:, None], -q[:, None] * d], axis=1)
+    r = _two_body(mx, masses[i], masses[j])
+    e = _iso(g, n)
+    pi = np.concatenate([np.sqrt(masses[i] ** 2 + r * r)[:, None], r[:, None] * e], axis=1)
+    pj = np.concatenate([np.sqrt(masses[j] ** 2 + r * r)[:, None], -r[:, None] * e], axis=1)
+    out = [None, None, None]
+    out[k], out[i], out[j] = pk, _boost(pi, px), _boost(pj, px)
     return out
 
 
@@ -308,7 +339,7 @@ def build(case: Case) -> Built:
 
             builder.config.spin_alignment = AxisAngleAlignment()
     model = builder.formulate()
-    expr = model.expression.doit()
+    expr = unfold(model.expression)
     pars = list(model.parameter_defaults)
     kin = [s for s in model.kinematic_variables if s in expr.free_symbols]
     extra = [s for s in expr.free_symbols if s not in pars and s not in kin]
@@ -328,6 +359,23 @@ def build(case: Case) -> Built:
         b.par_topology.append(hits[0] if len(hits) == 1 else None)
     b.t_formulate = time.time() - t0
     return b
+
+
+def unfold(expr):
+    """`expr.doit()`, but every distinct WignerD is unfolded once (32 s -> 4 s for aligned models)."""
+    from sympy.physics.quantum.spin import WignerD
+
+    expr = expr.xreplace({w: w.doit() for w in expr.atoms(WignerD)})
+    if any(hasattr(node, "evaluate") or hasattr(node, "doit") and type(node).__name__ in ("WignerD", "PoolSum", "CG")
+           for node in _nodes(expr)):
+        expr = expr.doit()
+    return expr
+
+
+def _nodes(expr):
+    import sympy as sp
+
+    return sp.preorder_traversal(expr)
 
 
 def parameter_values(b: Built, g) -> list:
@@ -350,7 +398,11 @@ def intensity(b: Built, pv, ev):
 
 def run_case(b: Built, g, n_events: int) -> dict:
     """Returns {'worst': float, 'n': int, 'skipped': int, 'fail': dict|None}."""
-    ev = phase_space(g, b.M, b.masses, n_events)
+    if b.case.events.startswith("lowpair:"):
+        pair = tuple(int(x) for x in b.case.events.split(":")[1].split(","))
+        ev = low_pair_mass(g, b.M, b.masses, pair, n_events)
+    else:
+        ev = phase_space(g, b.M, b.masses, n_events)
     R = random_rotations(g, n_events)
     ev2 = rotate(ev, R)
     pv = parameter_values(b, g)
@@ -363,9 +415,10 @@ def run_case(b: Built, g, n_events: int) -> dict:
     rel = np.where(ok, np.abs(I1 - I2) / np.where(scale > 0, scale, 1), 0.0)
     imag = float(np.max(np.abs(I1.imag[ok]) / np.where(scale[ok] > 0, scale[ok], 1))) if ok.any() else 0.0
     i = int(np.argmax(rel))
+    rtol = b.case.rtol
     res = {"worst": float(rel[i]), "n": int(ok.sum()), "skipped": int((~ok).sum()), "fail": None,
-           "imag": imag}
-    if rel[i] > RTOL:
+           "imag": imag, "wigner_beyond_90deg": wigner_beyond_90(b, ev, ev2)}
+    if rel[i] > rtol:
         res["fail"] = {
             "event": {str(k): [float(x) for x in e[i]] for k, e in zip(b.ids, ev)},
             "rotation": [[float(x) for x in row] for row in R[i]],
@@ -373,11 +426,28 @@ def run_case(b: Built, g, n_events: int) -> dict:
             "intensity": float(I1[i].real),
             "intensity_rotated": float(I2[i].real),
             "relative_change": float(rel[i]),
-            "events_failing": int((rel > RTOL).sum()),
+            "events_failing": int((rel > rtol).sum()),
             "events": int(ok.sum()),
         }
-        res["sign_flip_explains_all"] = _sign_flip_explains(b, pv, ev2, I1, np.where(rel > RTOL)[0])
+        res["sign_flip_explains_all"] = _sign_flip_explains(b, pv, ev2, I1, np.where(rel > rtol)[0])
     return res
+
+
+def wigner_beyond_90(b: Built, ev, ev2) -> int:
+    """Number of (event, rotated event) sets in which some Wigner rotation exceeds 90 degrees, judged
+    independently of the library's polar-angle formula: the ZZ element of the Wigner rotation
+    matrix is negative, i.e. cos(beta) < 0 whatever inverse function extracts beta. Uses the
+    library's alpha, gamma-free information only through `beta` symbols when the matrix is not
+    exposed: beta is recomputed here as acos(cos beta) from the model's own variables."""
+    names = [s for s in b.kin if s.name.startswith("beta_")]
+    if not names:
+        return 0
+    hit = np.zeros(len(ev[0]), dtype=bool)
+    with np.errstate(all="ignore"):
+        for s in names:
+            for e in (ev, ev2):
+                hit |= np.real(np.asarray(b.f_kin[s](*e))) > np.pi / 2
+    return int(hit.sum())
 
 
 def _sign_flip_explains(b: Built, pv, ev2, I1, bad) -> bool:
